@@ -8,9 +8,9 @@ from . import multi
 from .C07 import make_target
 
 ID = 'C08'
-CLAIM = "seeded search over target lists mixing healthy and failing peers x thread counts x schedules x text/JSON: one result block per target, healthy targets' reports present, run status = highest-ranked reference status, JSON stdout is one array with one element per target"
+CLAIM = "seeded search over target lists mixing healthy and failing peers x thread counts x schedules x text/JSON: one result block per target, healthy targets' reports present, run status = highest-ranked reference status, JSON stdout is one array with one element per target, each healthy target's element being its report; since round 12 also runs in which the connection-rate check takes place (targets without a Diffie-Hellman key exchange, targets gone by then), names whose resolution outlasts the time-out beside healthy targets, and - through the synchronisation seam - locks, events and pools the tool may create (a lock never released ends the run as HANG)"
 TRUST = 'trusted base: executor model as for C07; failure archetypes produced by the fault layer of the simulated servers/resolver/network; per-target reference statuses from fresh single-target runs'
-TECHNIQUE = 'deterministic simulation, per-target fault injection x seeded thread schedules, history oracle over stdout and exit status'
+TECHNIQUE = 'deterministic simulation, per-target fault injection (peer, network, resolver latency) x seeded thread schedules incl. simulated locks/events/pools, history oracle over stdout and exit status'
 LEVEL = 'exploration'
 BUDGET = {'quick': 200, 'thorough': 2400}
 NCASES = {'quick': 900, 'thorough': 6000}
